@@ -44,6 +44,11 @@ pub struct C03Plan {
     pub second: Option<Input>,
     /// valid frame decoded on the same decoder afterwards
     pub recovery: FrameSpec,
+    /// allocator-seam fault: execute the whole run twice more, with every uninitialised allocation pre-filled with
+    /// 0x55 and with 0xAA; everything observable (results, counts, every delivered byte, also those drained after an
+    /// error) must be identical, otherwise some observable depends on memory that was never written
+    #[serde(default)]
+    pub poison_pair: bool,
 }
 
 pub struct C03;
@@ -215,10 +220,38 @@ impl Engine for C03 {
         } else {
             None
         };
-        C03Plan { input, dict, program, second, recovery }
+        let poison_pair = r.chance(1, 4);
+        C03Plan { input, dict, program, second, recovery, poison_pair }
     }
 
     fn exec(&self, plan: &C03Plan, stats: &mut Stats, log: Option<&mut Vec<Value>>) -> Result<RunOutcome, HarnessError> {
+        // (under Miri the fill would turn uninitialised memory into initialised memory and hide what Miri looks for)
+        if plan.poison_pair && !cfg!(miri) {
+            let single = C03Plan { poison_pair: false, ..plan.clone() };
+            let mut digests = [0u64; 2];
+            for (i, fill) in [0x55u8, 0xAA].iter().enumerate() {
+                let mut scratch = Stats::default();
+                crate::simalloc::set_poison(Some(*fill));
+                let r = self.exec(&single, &mut scratch, None);
+                crate::simalloc::set_poison(None);
+                let o = r?;
+                if let Some(v) = o.violation {
+                    // an ordinary violation shows under any fill: report it as what it is
+                    let mut out = self.exec(&single, stats, log)?;
+                    if out.violation.is_none() {
+                        out.violation = Some(v);
+                    }
+                    return Ok(out);
+                }
+                digests[i] = o.digest;
+            }
+            stats.inc("fault.allocator_fill_pattern_pair");
+            let mut out = self.exec(&single, stats, log)?;
+            if digests[0] != digests[1] && out.violation.is_none() {
+                out.violation = Some(violation("C03/observable_depends_on_uninitialised_memory", format!("the same run under allocator fill 0x55 and 0xAA gives different observables (digests {:016x} vs {:016x}): results, counts or delivered bytes depend on memory that was never written", digests[0], digests[1])));
+            }
+            return Ok(out);
+        }
         let (bytes, base) = input_bytes(&plan.input)?;
         let mut d = Digest::new();
         let mut dec = FrameDecoder::new();
@@ -410,7 +443,8 @@ impl Engine for C03 {
 
     fn expected_reach(&self, _tier: Tier) -> Vec<&'static str> {
         if small_mode() {
-            return vec!["input.corrupted_frame"];
+            return vec![
+            "fault.allocator_fill_pattern_pair","input.corrupted_frame"];
         }
         vec![
             "input.corrupted_frame",
